@@ -187,6 +187,7 @@ Definition verr_code (e : option verr) : N :=
 
 Definition mism (b : bool) (code : N) : verdict := if b then V_ok else V_mismatch code.
 Definition viol (b : bool) (clause : N) : verdict := if b then V_ok else V_violation clause.
+Definition known (b : bool) (finding : N) : verdict := if b then V_ok else V_known finding.
 
 Definition hv_eq (a b : hv) : bool := hv_eqb a b.
 Definition header_eqb (a b : header) : bool :=
@@ -228,10 +229,11 @@ Definition cum (p : Z -> bool) (l : list (Z * Z)) : Z :=
 Definition in_i64 (t : Z) : bool := (min_int64 <=? t) && (t <=? max_int64).
 
 (* [t] is a weighted median of [l] for the threshold total/2: it is one of the times, the entries
-   up to t weigh at least the threshold, those strictly before t weigh less (weights >= 0) *)
+   up to t weigh at least the threshold, and no earlier time has that property (weights >= 0) *)
 Definition is_weighted_median (l : list (Z * Z)) (total t : Z) : bool :=
   let m := Z.quot total 2 in
-  existsb (fun e => fst e =? t) l && (m <=? cum (fun x => x <=? t) l) && (cum (fun x => x <? t) l <? m).
+  existsb (fun e => fst e =? t) l && (m <=? cum (fun x => x <=? t) l)
+  && forallb (fun e => negb (fst e <? t) || (cum (fun x => x <=? fst e) l <? m)) l.
 
 (* what a correct proposer's inputs look like (StateInv + a good commit + usable evidence) *)
 Definition hash32 (h : hv) : bool := hv_len h =? tmhash_size.
@@ -280,14 +282,23 @@ Definition check (c : case) : verdict :=
       && (if height =? st_initial st then Nat.eqb (List.length (cm_sigs c)) 0
           else match verify_commit ideal_verify (st_last_vals st) (hv_id (st_chain st))
                                    (bi_code (st_last_bid st)) (height - 1) (to_commit c) with
-               | R_ok => true | _ => false end
-               && (median_time c (st_last_vals st) >? st_last_time st)) in
+               | R_ok => true | _ => false end) in
+    let time_ok := (height =? st_initial st) || (median_time c (st_last_vals st) >? st_last_time st) in
+    (* power of the signers whose precommit is not stamped after the block it commits (honest
+       validators stamp precommits later than the block, consensus/state.go voteTime) *)
+    let late := fold_right (fun vs acc =>
+                  (if negb (s_flag (snd vs) =? block_id_flag_absent) && (s_ts (snd vs) <=? st_last_time st)
+                   then v_power (fst vs) else 0) + acc) 0 (combine (st_last_vals st) (cm_sigs c)) in
     first_of [
       (* a correct proposer's block passes validation *)
-      viol (negb inputs_ok || (res_i =? 0)%N) 3;
+      viol (negb (inputs_ok && time_ok) || (res_i =? 0)%N) 3;
+      (* known finding 1: signers holding less than 1/3 stamped their precommits in the past and
+         the correct proposer's block gets a time that is not after the last block *)
+      known (negb (inputs_ok && negb time_ok && (res_i =? 42)%N
+                   && (3 * late <? sum_pow (st_last_vals st)))) 1;
       (* ... and fits the size limit when the mempool respected the budget it was given and
          the application hash is within the header budget *)
-      viol (negb (inputs_ok && (0 <=? budget_i) && (dsize <=? budget_i)
+      viol (negb (inputs_ok && time_ok && (0 <=? budget_i) && (dsize <=? budget_i)
                   && (hv_len (st_app_hash st) <=? 182)
                   && (p_max_bytes (st_params st) <=? max_block_size_bytes)
                   && (0 <=? o_evsize o) && (0 <=? st_vapp st))
